@@ -2,6 +2,7 @@ package checks
 
 import (
 	"fmt"
+	"fortio.org/log"
 	"os"
 	"runtime/debug"
 	"sort"
@@ -174,6 +175,32 @@ func runC07(c *core.Ctx) {
 		}
 	}
 	bounds = append(bounds, fmt.Sprintf("%d infix operators x all ordered pairs of %d values of every object type; 56 unary forms x every value", len(c07InfixOps), len(names)))
+	// 1b. the same unary forms and the operator table over a value subset at debug log level: the evaluator formats
+	// trace messages about the nodes and values at hand (log level is configuration, the property holds under all of it)
+	if ok {
+		prev := log.GetLogLevel()
+		log.SetLogLevelQuiet(log.Debug)
+		unary := []string{"-%s", "!%s", "++%s", "%s--", "if %s { 1 }", "for v = %s { v }", "for %s = 3 { }", "del(%s)", "del(%s.k)", "%s.k = 1", "%s(1, 2)", "{%s: %s}", "return %s", "%s => 1", "quote(%s)", "unquote(%s)",
+			"func(%s) { 1 }(1)", "x = %s; x[0] = x", "%s[%s]", "%s[%s:%s]", "%s[:1]", "%s[1:]", "print(%s, %s)", "error(%s)", "catch(%s)", "len(%s)", "first(rest(%s))", "%s = %s + %s", "m = macro(x) { quote(unquote(x)) }; m(%s)", "%s(%s)"}
+		for _, a := range names {
+			for _, f := range unary {
+				if ok = do("dbg-unary", prelude, strings.ReplaceAll(f, "%s", a)); !ok {
+					break
+				}
+			}
+		}
+		for _, op := range c07InfixOps {
+			for _, a := range sub6 {
+				for _, b := range sub6 {
+					if ok = do("dbg-infix", prelude, a+" "+op+" "+b); !ok {
+						break
+					}
+				}
+			}
+		}
+		log.SetLogLevelQuiet(prev)
+		bounds = append(bounds, fmt.Sprintf("at debug log level: %d unary forms x every value, every infix operator x all pairs of 6 values", len(unary)))
+	}
 	// 2. binary and ternary forms x every value in every position
 	if ok {
 		for _, f := range []string{"%a[%b]", "%a[%b] = 1", "%a[%b:]", "%a.k = %b", "del(%a[%b])", "%a(%b)", "%a = %b", "%a := %b", "for %a = %b { }", "for v = %a:%b { break }", "x = %a; x[%b] = x",
@@ -402,9 +429,9 @@ func runC07(c *core.Ctx) {
 
 func init() {
 	core.Register(&core.Check{
-		ID:    "C07",
-		Level: "exploration",
-		Rule: "programs enumerated exhaustively and evaluated through parse, macro definition/expansion and State.Eval under the harness's own recover, with a 3000-poll counting context, GOMEMLIMIT 1GiB, restricted IO, stdin=/dev/null: every infix operator x every ordered pair from a 48-value universe covering every object type (boundary ints/floats, strings, bool, nil, small/large/nested arrays and maps, named function, lambdas, variadic, extension functions, quote object, caught error), 56 unary and 19 binary forms x every value, index/slice/index-assignment/call x all triples, every builtin and extension x every value in every argument position, every small G-syn tree under several identifier bindings, byte mutations of shipped programs (thorough). Oracle: a panic must be one of the two documented guards (max depth, memory budget); anything else is a violation identified by its panic call site; a dying worker process is a violation attributed to its input. Non-trivial = every case.",
+		ID:          "C07",
+		Level:       "exploration",
+		Rule:        "programs enumerated exhaustively and evaluated through parse, macro definition/expansion and State.Eval under the harness's own recover, with a 3000-poll counting context, GOMEMLIMIT 1GiB, restricted IO, stdin=/dev/null: every infix operator x every ordered pair from a 48-value universe covering every object type (boundary ints/floats, strings, bool, nil, small/large/nested arrays and maps, named function, lambdas, variadic, extension functions, quote object, caught error), 56 unary and 19 binary forms x every value, index/slice/index-assignment/call x all triples, every builtin and extension x every value in every argument position, every small G-syn tree under several identifier bindings, byte mutations of shipped programs (thorough). Oracle: a panic must be one of the two documented guards (max depth, memory budget); anything else is a violation identified by its panic call site; a dying worker process is a violation attributed to its input. Non-trivial = every case.",
 		Assume:      []string{"sleep() only called with tiny arguments; exec/run absent (restricted IO)"},
 		QuickCap:    100 * time.Second,
 		ThoroughCap: 20 * time.Minute,
